@@ -11,6 +11,20 @@ import (
 // the concurrent visits within the preemption bound): once each, after dependencies,
 // bounded, live, first error, project untouched; cyclic graphs refused before any visit.
 
+// c13Dangling gives one service an extra optional dependency on a service that is not part of the project
+// (disabled by a profile, say): it adds no edge and must not disturb the edges of its neighbours.
+func c13Dangling(p *types.Project, which int) {
+	if which == 0 {
+		return
+	}
+	n := []string{"a", "b", "c"}[which-1]
+	s := p.Services[n]
+	// both a name sorting before and one sorting after the real services, so that every iteration order meets it early
+	s.DependsOn["0zz"] = types.ServiceDependency{Condition: "service_started", Required: false}
+	s.DependsOn["zz"] = types.ServiceDependency{Condition: "service_started", Required: false}
+	p.Services[n] = s
+}
+
 func c13Project(edges [3]bool, back int) *types.Project {
 	names := []string{"a", "b", "c"}
 	p := &types.Project{Name: "p", Services: types.Services{}}
@@ -49,9 +63,13 @@ func VerifC13Traversal() {
 	edges[1] = vrtChoice("a-c", 2) == 1
 	edges[2] = vrtChoice("b-c", 2) == 1
 	p := c13Project(edges, 0)
+	if vrtParam("DANGLING", 0) == 1 {
+		c13Dangling(p, vrtChoice("dangling", 4))
+		vrtMapOrder([]int{0, 3, 4}[vrtChoice("maporder", 3)])
+	}
 	before := vrtClone(p).(*types.Project)
 	reverse := vrtChoice("reverse", 2) == 1
-	limit := vrtChoice("limit", 3) // 0 unbounded, 1, 2
+	limit := vrtChoice("limit", vrtParam("LIMITS", 3)) // 0 unbounded, 1, 2
 	failAt := []string{"", "a", "b", "c"}[vrtChoice("failAt", vrtParam("FAILS", 4))]
 	var opts []func(*Options)
 	if reverse {
@@ -127,7 +145,11 @@ func VerifC13Roots() {
 	edges[1] = vrtChoice("a-c", 2) == 1
 	edges[2] = vrtChoice("b-c", 2) == 1
 	p := c13Project(edges, 0)
-	root := []string{"a", "b", "c"}[vrtChoice("root", 3)]
+	c13Dangling(p, vrtChoice("dangling", 4))
+	vrtMapOrder([]int{0, 3, 4}[vrtChoice("maporder", 3)])
+	// one to three roots, in any order the caller may list them
+	rootLists := [][]string{{"a"}, {"b"}, {"c"}, {"a", "b"}, {"b", "a"}, {"a", "c"}, {"c", "a"}, {"b", "c"}, {"c", "b"}, {"a", "b", "c"}, {"c", "b", "a"}, {"b", "c", "a"}}
+	roots := rootLists[vrtChoice("roots", len(rootLists))]
 	vrtSetPreemptions(0)
 	// services that transitively depend on root (plus root itself)
 	dependsOn := map[string][]string{"a": nil, "b": nil, "c": nil}
@@ -153,7 +175,7 @@ func VerifC13Roots() {
 		return false
 	}
 	visited := map[string]int{}
-	ropts := []func(*Options){WithRootNodesAndDown([]string{root})}
+	ropts := []func(*Options){WithRootNodesAndDown(roots)}
 	if vrtChoice("reverse", 2) == 1 {
 		// the set of visited services does not depend on the direction
 		ropts = append(ropts, InReverseOrder)
@@ -167,8 +189,10 @@ func VerifC13Roots() {
 	vrtAssert("roots-walk-succeeds", err == nil)
 	for _, n := range []string{"a", "b", "c"} {
 		want := 0
-		if reach(n, root) {
-			want = 1
+		for _, root := range roots {
+			if reach(n, root) {
+				want = 1
+			}
 		}
 		vrtObserve(n, visited[n])
 		vrtAssert("visits-exactly-root-and-dependents", visited[n] == want)
